@@ -90,19 +90,49 @@ def one(system, rng):
     return v
 
 
+def one_int(system, rng):
+    """integer-valued stored coordinates of one vector (timelike, forward, off-axis) - for arrays with integer-typed columns"""
+    v = {}
+    if system[0] == "xy":
+        v["x"] = rng.choice([-1, 1]) * rng.choice([1, 2, 3])
+        v["y"] = rng.choice([-1, 1]) * rng.choice([1, 2, 3])
+        rho = math.hypot(v["x"], v["y"])
+    else:
+        v["rho"] = rng.choice([1, 2, 3])
+        v["phi"] = rng.choice([-3, -2, -1, 1, 2, 3])
+        rho = v["rho"]
+    zz = 0.0
+    if len(system) > 1:
+        if system[1] == "z":
+            v["z"] = rng.choice([-1, 1]) * rng.choice([1, 2, 3])
+            zz = v["z"]
+        elif system[1] == "theta":
+            v["theta"] = rng.choice([1, 2])
+            zz = rho / math.tan(v["theta"])
+        else:
+            v["eta"] = rng.choice([-2, -1, 1, 2])
+            zz = rho * math.sinh(v["eta"])
+    if len(system) > 2:
+        if system[2] == "t":
+            v["t"] = int(math.ceil(math.hypot(rho, zz))) + rng.choice([1, 2, 3])
+        else:
+            v["tau"] = rng.choice([1, 2, 3])
+    return v
+
+
 def obj_of(system, mom, vals):
     return vector.obj(**{(MOM.get(n, n) if mom else n): vals[n] for n in names_of(system)})
 
 
-NUMPY_LAYOUTS = ["np()", "np(3)", "np(2,2)"]
-AWK_LAYOUTS = ["ak-flat", "ak-jagged", "ak-nested", "ak-option", "ak-record", "ak-rawzip", "ak-regular"]
+NUMPY_LAYOUTS = ["np()", "np(3)", "np(2,2)", "np(3)-int"]
+AWK_LAYOUTS = ["ak-flat", "ak-jagged", "ak-nested", "ak-option", "ak-record", "ak-rawzip", "ak-regular", "ak-flat-int"]
 
 
 def nest(layout):
     """shape of the nested python structure (lists of element slots; None = missing)"""
     return {"np()": "E", "np(3)": ["E", "E", "E"], "np(2,2)": [["E", "E"], ["E", "E"]],
             "ak-flat": ["E", "E", "E"], "ak-jagged": [["E", "E"], [], ["E"]], "ak-nested": [[["E"], ["E", "E"]], [], [[]]],
-            "ak-option": [["E", None], None, ["E"]], "ak-record": "E", "object": "E", "ak-rawzip": [["E", "E"], [], ["E"]], "ak-regular": [["E", "E", "E"], ["E", "E", "E"]]}[layout]
+            "ak-option": [["E", None], None, ["E"]], "ak-record": "E", "object": "E", "ak-rawzip": [["E", "E"], [], ["E"]], "ak-regular": [["E", "E", "E"], ["E", "E", "E"]], "np(3)-int": ["E", "E", "E"], "ak-flat-int": ["E", "E", "E"]}[layout]
 
 
 def fill(struct, f):
@@ -115,9 +145,13 @@ def fill(struct, f):
 
 def build(layout, system, mom, rng, extras=False):
     """returns (vector in the requested backend/layout, nested structure of stored-coordinate dicts)"""
-    struct = fill(nest(layout), lambda: one(system, rng))
+    struct = fill(nest(layout), (lambda: one_int(system, rng)) if layout.endswith("-int") else (lambda: one(system, rng)))
     names = names_of(system)
     key = (lambda n: MOM.get(n, n)) if mom else (lambda n: n)
+    if layout == "np(3)-int":
+        return vector.array({key(n): np.array([e[n] for e in struct], dtype=np.int64) for n in names}), struct
+    if layout == "ak-flat-int":
+        return vector.zip({key(n): ak.Array(np.array([e[n] for e in struct], dtype=np.int64)) for n in names}), struct
     if layout == "object":
         return obj_of(system, mom, struct), struct
     if layout.startswith("np"):
